@@ -4,6 +4,7 @@ import GormModel.Model.WhereSwap
 open Lean
 namespace Gorm.Drv
 open Gorm.SchemaCache
+namespace HC07
 
 def parseRel (j : Json) : Option Rel := do
   let p ← jArr? j
@@ -81,6 +82,9 @@ def parseItem (j : Json) : Option WhereSwap.Item :=
     let inner ← (← jArr? j).toList.mapM parseEK
     some (.andGroup inner)
 
+end HC07
+
+open HC07 in
 /-- ["sc.sched", cfg, progs, sched] ; ["where.swap", [items]] (item = "or1" | "other" | [inner kinds] for an And group) -/
 def handleC07 (op : String) (args : Array Json) : Option Json := do
   match op with
